@@ -57,6 +57,10 @@ type Program struct {
 	fnByKey   map[string]*ssa.Function
 	needTypes []string
 	mu        sync.Mutex
+	shortCache map[*ssa.Function]*shortInfo
+	corpus *string
+	trackedMemo map[string]bool
+	untrackedMemo map[*ssa.Function][]string
 }
 
 func (P *Program) fnKey(fn *ssa.Function) string {
@@ -594,7 +598,7 @@ func (P *Program) genVC(con *Contract) (*FuncResult, *VC) {
 	// was alive at entry (it may only have been written on objects allocated by this call); callers rely on that.
 	if est != nil {
 		declared := map[string]bool{}
-		for _, m := range con.Modifies {
+		for _, m := range P.effMods(con) {
 			declared[P.modKey(m)] = true
 		}
 		var keys []string
@@ -605,6 +609,12 @@ func (P *Program) genVC(con *Contract) (*FuncResult, *VC) {
 		aliveEntry := f.getCell(f.entry, "ghost:alive", aliveSort)
 		for _, k := range keys {
 			if strings.HasPrefix(k, "L:") || strings.HasPrefix(k, "V:") || k == "ghost:alive" || k == "ghost:lastCtxErrNil" || k == "ghost:recvd" || declared[k] || con.ModAll {
+				continue
+			}
+			if P.untrackedKey(k) {
+				// a field no contract mentions (alias.go): written through an interface or function value the static
+				// scan did not follow; still not a frame obligation
+				vc.used["UNTRACKED-FIELD:"+k] = true
 				continue
 			}
 			srt := vc.cellSort[k]
